@@ -153,6 +153,9 @@ def eval_case(case):
     if case["sub"] == "arm":
         from armsim import runner
         return runner.eval_case(case)
+    if case["sub"] == "arm-xcheck":
+        from armsim import runner
+        return runner.xcheck_aarch64()[1]
     bits, op, alias = case["bits"], case["op"], case.get("alias", False)
     a = int(case["a"], 16)
     b = int(case.get("b", "0"), 16)
@@ -212,11 +215,9 @@ def shards(ctx):
                 out.append({"sub": "sweep", "bits": bits, "op": op, "alias": alias, "start": 0, "count": n, "n": n, "level": level})
         out.append({"sub": "sweep", "bits": bits, "op": "montgomery_reduce", "alias": False, "start": 0, "count": -1, "n": 0, "level": level})
         out.append({"sub": "pyrows", "bits": bits})
-    try:
-        from armsim import runner
-        out += runner.shards(ctx)
-    except ImportError:
-        pass
+    from armsim import runner
+    out += runner.shards(ctx)
+    out.append({"sub": "arm-xcheck"})
     return [s for s in out if s.get("count", 1) != 0]
 
 
@@ -231,6 +232,13 @@ def run_shard(ctx, shard):
     if sub == "arm":
         from armsim import runner
         return runner.run_shard(ctx, shard)
+    if sub == "arm-xcheck":
+        from armsim import runner
+        n, msgs = runner.xcheck_aarch64()
+        ctx.ok(True, "arm:expander-vs-llvm", n=n)
+        if msgs:
+            ctx.fail({"sub": "arm-xcheck"}, "; ".join(msgs[:3]), sig="arm-xcheck")
+        return
     bits = shard["bits"]
     if sub == "pyrows":
         return run_pyrows(ctx, bits)
